@@ -12,6 +12,7 @@ partial def dispatch (j : Json) : R Json := do
     return jObj [("replies", jArr rs)]
   | "permute" => handlePermute j
   | "convert" => handleConvert j
+  | "roundtrip" => handleRoundTrip j
   | "gen" => handleGen j
   | "world" => handleWorld j
   | "solo" => handleSolo j
